@@ -350,7 +350,7 @@ def sc_orders(rng, tier, out):
             if p < 0.18:
                 cmds.append(joint_cmd(1, rng.choice([0, 5]), 0, a, b, c, vres, nv)); slots += 1
             elif p < 0.36 and can_clone:
-                cmds.append("clone %d %d" % (s, rng.choice([0, 0, 0, 1, 2, 3]))); slots += 1
+                cmds.append("clone %d %d%s" % (s, rng.choice([0, 0, 0, 1, 2, 3]), rng.choice(["", "", " 1"]))); slots += 1
             elif p < 0.46:
                 cmds.append("jmove %d 1 %d %d" % (s, rng.choice([0, 9]), rng.choice([0, 0, 2]))); slots += 1
             elif p < 0.58:
